@@ -1680,6 +1680,18 @@ class DynDiGraph(nx.DiGraph):
 
         return dist
 
+    def clear(self):
+        """Remove all nodes and interactions, together with their snapshots and events."""
+        nx.DiGraph.clear(self)
+        self.time_to_edge = defaultdict(int)
+        self.snapshots = {}
+
+    def clear_edges(self):
+        """Remove all interactions (nodes are kept), together with their snapshots and events."""
+        nx.DiGraph.clear_edges(self)
+        self.time_to_edge = defaultdict(int)
+        self.snapshots = {}
+
     @not_implemented()
     def remove_edge(self, u, v):
         pass
